@@ -42,6 +42,9 @@ func (verifSource) Int63() int64 {
 }
 func (verifSource) Seed(int64) {}
 
+// the statement's score range [0,1000] and health threshold 500 (not the code's constants)
+const verifMaxScore = 1000
+
 const verifMaxTime = int64(1) << 56 // ns; timex.Now is ~13 months (2^55 ns) plus uptime
 
 // verifConn: a connection in an arbitrary state.
@@ -53,7 +56,7 @@ func verifConn(id int) *subConn {
 	verifAssume(c.inflight >= 0)
 	verifAssume(c.inflight <= 1<<20)
 	c.success = verifUint64("success")
-	verifAssume(c.success <= initSuccess)
+	verifAssume(c.success <= verifMaxScore)
 	c.requests = verifInt64("requests")
 	verifAssume(c.requests >= 0)
 	verifAssume(c.requests <= 1<<40)
